@@ -36,7 +36,7 @@ ASSUMPTIONS = C03.ASSUMPTIONS + [
     "weighted_median: its BODY is verified (units weighted_median.body: the result has at most half the weight below and at most half above, no index out of range; weighted_median.order_insensitive: for weights > 0 the result is characterised by the weight totals below / up to each score, which do not depend on the order of the rows -- so it is a statistic of the multiset of rows) under the library contracts A-ARGSORT (np.argsort is a permutation that sorts), A-CUMSUM (np.cumsum recurrence), A-WHERE (np.where(mask)[0] = positions of the mask, increasing) and floats as reals (the float test `== 0.5` is taken exactly); callers owe: >= 1 row, weights > 0 that sum to 1 (obligations weighted_median.call*.pre.*)",
     "A-SIGMA: math_utils.boot_sigma (scipy.stats.bootstrap, seeded) is a finite positive function of the multiset of its rows' data and (conf, winsorize, seed)",
     "scipy.stats.norm.ppf(q, loc, scale) = loc + scale*z_q; numpy.sqrt / round as axiomatised functions (s>=0, s*s=x; |round(x)-x|<=1/2, whole, identity on whole numbers)",
-    "termination of the recursion of GaussianModel.fit is not proved (partial correctness); the >=1 calibration row precondition of the aggregate function is C14.gaussian.split",
+    "termination of the recursion of GaussianModel.fit IS proved (units fit_cascade_step.*: decreases clause over (number of aggregate keys, 'some group is too small'), bottom = the empty aggregate never falls back); the >= 3 calibration rows precondition of the gaussian functions is C14.gaussian.split (calibration_rows_ge_3); the >= 2 observations precondition of the bootstrapped scale is an obligation at its call sites (boot_sigma.call*.pre.at_least_two_observations) under _fit's precondition 'every group holds >= 2 calibration units', which the cascade units establish at every call site (on paper: counts there are formal sums of ones, in _fit cardinalities -- Finset.card_eq_sum_ones)",
     "bounded companion: group structures up to 2 states x 3 sub-groups, calibration counts in {0,3,9,10,11,25}, two- and one-level aggregates",
 ]
 BOUNDED = [
@@ -202,6 +202,9 @@ def _cascade(aggname, keys):
         if kinds == ["_fit"]:
             h.ensures("single_fit.uses_all_calibration_data_at_this_level", calls[0]["conf"] is cal and calls[0]["aggregate"] == list(keys))
             h.ensures("single_fit.only_if_every_group_is_large_enough", z3.Implies(z3.And(facts, in_group), n_g >= T), replay=rp)
+            # (precondition of _fit's bootstrapped scale: with >= 3 calibration units -- C14.gaussian.split -- every group of a
+            # single fit holds >= 3 of them)
+            h.ensures("single_fit.every_group_holds_at_least_three_calibration_units_if_there_are_three", z3.Implies(z3.And(facts, in_group, ncal >= 3), n_g >= 3), replay=rp)
         else:
             h.ensures("fallback.two_recursive_calls", kinds == ["fit", "fit"], why=str(kinds))
             if kinds != ["fit", "fit"]:
@@ -222,6 +225,24 @@ def _cascade(aggname, keys):
             pw = frames.presence_instances(h.ctx, t.root, dict(zip(keys, wit)), rows=[ws2])
             some_row = z3.Or(*[z3.And(r >= 0, r < t.root.n, z3.substitute(in_group, (t.root.u, r), *list(zip(kv, wit)))) for r in pw])
             h.ensures("fallback.only_if_some_group_is_too_small", z3.And(some_row, at(n_g, wit) < T), replay=rp)
+            # ---- termination of the recursion (a decreases clause; the measure is the pair (number of aggregate keys, "some
+            # group is too small") in lexicographic order).  (1) the parent-level call has strictly fewer keys; (2) in the DATA
+            # of the same-level call no group is too small -- by `fallback.only_if_some_group_is_too_small` (this unit, for
+            # arbitrary data) such a call makes no further call; with no calibration row at all it returns at once.
+            h.ensures("termination.parent_level_call_has_strictly_fewer_keys", len(small["aggregate"]) < len(keys) and len(keys) >= 1)
+            confL, nonL = large["conf"], large["non"]
+            ok_frames = isinstance(confL, frames.Frame) and isinstance(nonL, frames.Frame) and len(confL.axis.doms) == 1 and len(nonL.axis.doms) == 1
+            h.ensures("termination.this_level_call_gets_frames", ok_frames)
+            if ok_frames:
+                ncalL = confL.axis.n
+                TL = z3.If(ncalL < 10, ncalL, z3.IntVal(10))
+                frames.lemma_count_mono(h.ctx, t.root, confL.axis.doms[0], inCal, name="termination.lemma.count_mono")
+                nL_g, d_nL = sums.formal_sum_dom(h.ctx, t.root, z3.And(confL.axis.doms[0], *[t.keys[k] == gs.keyvars[k] for k in keys]), z3.IntVal(1))
+                sums.lemma_sum_congr(h.ctx, d_nL, d_ng, name="termination.lemma.sum_congr", guard=n_g >= T)
+                in_g_L = z3.And(z3.Or(confL.axis.doms[0], nonL.axis.doms[0]), *[a == b for a, b in zip(own, kv)])
+                h.ensures("termination.this_level_call_has_no_group_that_is_too_small", z3.Implies(z3.And(facts, in_g_L), nL_g >= TL), replay=rp)
+                # (and its groups keep ALL their calibration units: >= the caller's threshold, so >= 3 if the caller had >= 3)
+                h.ensures("fallback.this_level_call_groups_keep_their_calibration_units", z3.Implies(z3.And(facts, in_g_L), z3.And(nL_g >= T, z3.Implies(ncal >= 3, nL_g >= 3))), replay=rp)
         h.ensures("no_s3_write_without_the_option", not [c for c in h.interp.call_log if "s3" in str(c[0]).lower()])
 
     return step
@@ -230,6 +251,51 @@ def _cascade(aggname, keys):
 for _n, _k in AGGS.items():
     if _n != "state":
         _cascade(_n, _k)
+# the bottom of the recursion (termination): a one-key aggregate falls back to the EMPTY aggregate ...
+_cascade("state", AGGS["state"])
+
+
+# ... and the empty aggregate (one group: everything) never falls back
+@unit("C15", "fit_cascade_step.no_keys", fns=[f"{GM}.fit", f"{GM}._get_n_units_per_group"])
+def cascade_bottom(h):
+    """GaussianModel.fit with aggregate=[] (the unit-level model, and the last fallback): all calibration units are ONE group
+    of size n >= min(10, n), so it is always the single fit -- the recursion ends here"""
+    t = Three(h, "turnout", extra=("lower_bounds", "upper_bounds"))
+    u = t.root.u
+    inCal = z3.Function("inCal", z3.IntSort(), z3.BoolSort())(u)
+    h.syms["inCal"] = z3.Function("inCal", z3.IntSort(), z3.BoolSort())
+    h.forall_rows(t.root, z3.Implies(inCal, t.R))
+    cal = frames.base_frame(t.root, inCal, {k: c.t for k, c in t.rep.cols.items()}, "geographic_unit_fips")
+    h.requires("some_calibration_unit", cal.axis.n >= 1)
+    calls = []
+    rp = lambda ev: {"target": "verif_replays:gaussian_recursion_bottom_replay", "args": [], "check": "result['exc'] is None and result['ok']"}  # noqa: E731
+    h.default_replay = rp
+
+    def own_contract(interp, self_, *a, **k):
+        calls.append(dict(kind="fit", aggregate=list(k.get("aggregate") or [])))
+        # reached at all = a fallback below the empty aggregate (its `aggregate[:-1]` is the empty aggregate again: no end)
+        interp.ctx.oblige(f"{h.udesc['prop']}.{h.udesc['name']}.termination.the_empty_aggregate_never_falls_back", z3.BoolVal(False), kind="ensures", why="GaussianModel.fit(aggregate=[]) called itself", replay=rp)
+        return frames.base_frame(frames.keyspace(["<model>"], {"<model>": z3.StringSort()}), z3.BoolVal(True), {}, None)
+
+    def _fit_contract(interp, self_, conformalization_data, estimand, aggregate, alpha):
+        calls.append(dict(kind="_fit", conf=conformalization_data, aggregate=list(aggregate), alpha=alpha))
+        return frames.base_frame(frames.keyspace(["<model>"], {"<model>": z3.StringSort()}), z3.BoolVal(True), {}, None)
+
+    h.contracts[f"{GM}.fit"] = own_contract
+    h.contracts[f"{GM}._fit"] = _fit_contract
+    gm = h.obj(GM, save_conformalization=False, election_id="e", office="S", geographic_unit_type="county", winsorize=False, beta=1, seed=4191)
+    clo = h.load(f"{GM}.fit")
+    alpha = h.real("alpha")
+    from pyvc.values import SymRaise
+
+    try:
+        h.interp.call_closure(clo, [gm, cal, t.rep, t.nonrep, "turnout"], dict(aggregate=[], alpha=alpha, reweight=False, top_level=True))
+    except SymRaise as e:
+        return h.fail("no_raise", f"raised {e.exc}", replay=rp)
+    h.ensures("termination.the_empty_aggregate_is_always_the_single_fit", [c["kind"] for c in calls] == ["_fit"], why=str([c["kind"] for c in calls]), replay=rp)
+    if calls and calls[0]["kind"] == "_fit":
+        h.ensures("single_fit.uses_all_calibration_data", calls[0]["conf"] is cal and calls[0]["aggregate"] == [])
+    h.ensures("no_s3_write_without_the_option", not [c for c in h.interp.call_log if "s3" in str(c[0]).lower()])
 
 
 # ---- the per-group statistics of GaussianModel._fit (real body; weighted median / bootstrapped scale under contract) --
@@ -447,6 +513,14 @@ def _fit_stats(aggname, keys):
         h.contracts[BS] = theory_ext.boot_sigma_contract
         alpha = h.real("alpha")
         gm = h.obj(GM, **SETTINGS)
+        # precondition of _fit, established by every call site (units fit_cascade_step.*: _fit is reached only when every group
+        # holds >= min(10, #calibration) calibration units, resp. -- in the same-level call of a fallback -- the units it held
+        # before; C14.gaussian.split: above the gate there are >= 3 calibration units): every group has >= 2 rows, which is what
+        # the bootstrapped scale needs (obligation boot_sigma.call*.pre.at_least_two_observations)
+        h.requires("every_group_holds_at_least_two_calibration_units")
+        h.interp.group_rows_at_least = 2
+        if not keys:
+            h.requires("at_least_two_calibration_units", cal.axis.n >= 2)
         kind, res = h.call_method(gm, "_fit", cal, "turnout", list(keys), alpha)
         if kind == "raise":
             return h.fail("no_raise", f"raised {res}")
